@@ -84,7 +84,17 @@ def _stream(rng: random.Random, uni: list, n: int) -> list:
     """list of [item_index, count]"""
     if not uni or n == 0:
         return []
-    shape = rng.choice(["uniform", "zipf", "single", "runs"])
+    shape = rng.choice(["uniform", "zipf", "single", "runs", "comeback"])
+    if shape == "comeback":
+        # a heavy item is evicted by a crowd of others and comes back with a large weight, several times over
+        out, hot = [], 0
+        while len(out) < n:
+            out.append([hot, rng.randrange(1, 9)])
+            for _ in range(rng.randrange(1, 6)):
+                out.append([rng.randrange(len(uni)), rng.choice([1, 1, 1, 2, 4])])
+            if rng.random() < 0.2:
+                hot = rng.randrange(len(uni))
+        return out[:n]
     out = []
     for _ in range(n):
         if shape == "uniform":
@@ -523,7 +533,7 @@ def run_tdigest(case: dict) -> Result:
 
 
 def gen_reservoir(rng: random.Random, tier: str) -> dict:
-    n = rng.choice([0, 1, 2, 5, 10, 50, 300])
+    n = rng.choice([0, 1, 2, 5, 10, 50, 300, 3000])
     return {
         "kind": "reservoir",
         "size": rng.choice([1, 2, 3, 10, 50]),
@@ -586,6 +596,24 @@ def run_reservoir(case: dict) -> Result:
         if ra.item_count != na + nb:
             res.add("item-count", comp, "after-merge", f"{ra.item_count} vs {na + nb}")
             break
+    # clear() and reuse: the sampler behaves like a fresh one for the second stream (shorter and longer than k)
+    for m in sorted({1, max(1, case["size"] // 2), case["size"], case["size"] + 3}):
+        r.clear()
+        n2 = 0
+        for step in range(m):
+            r.add(("second", m, step))
+            n2 += 1
+            res.count("queries_checked")
+            s2 = r.sample()
+            if len(s2) != min(case["size"], n2) or any(x[0] != "second" or x[1] != m for x in s2):
+                res.add("sample-size", comp, "after-clear-and-reuse", f"after clear() and {n2} adds the reservoir (k={case['size']}) holds {len(s2)} items: {s2[:3]}")
+                break
+        else:
+            if r.item_count != n2:
+                res.add("item-count", comp, "after-clear-and-reuse", f"{r.item_count} vs {n2}")
+            continue
+        break
+    res.count("reuse_after_clear_checked")
     if n > case["size"]:
         res.nontrivial = True
         res.count("replacements_possible")
